@@ -963,6 +963,7 @@ func (m *Models) afterEnd(w *World, _ abci.ResponseEndBlock) {
 				for _, lf := range Flatten([]sdk.Msg{msg}) {
 					if isCustom(msgKind(lf.Msg)) {
 						m.Gov.Executed = append(m.Gov.Executed, GovExec{id, lf.Msg, m.Expect(lf.Msg)})
+						w.Probe("gov.executed." + msgKind(lf.Msg))
 					}
 					m.Apply(lf.Msg, w.Now, w.BlockIdx)
 				}
